@@ -74,10 +74,12 @@ class C15(Property):
     # C15Full imports C15Velocity and C15Ieee; chain: C15Velocity ▸ C15ShiftLines ▸ C15Shift (▸ Lemmas/ShiftLaws) ▸ C15Map ▸ C15; C15Ieee ▸ C15Map; all in namespace Rosu.C15
     lean_module = "RosuModel.Props.C15Full"
     theorem_modules = ['RosuModel.Props.C15Velocity', 'RosuModel.Props.C15Ieee', 'RosuModel.Props.C15IeeeDecoded', 'RosuModel.Props.C15ShiftOn', 'RosuModel.Props.C15ShiftLinesOn', 'RosuModel.Props.C15IeeeShift', 'RosuModel.Props.C15IeeeVelocity',
-                       ('RosuModel.Lemmas.FloatIntExact', 'Rosu.FIE'), ('RosuModel.Lemmas.ShiftLawsOn', 'Rosu')]   # files whose top-level theorems are all audited
+                       ('RosuModel.Lemmas.FloatIntExact', 'Rosu.FIE'), ('RosuModel.Lemmas.ShiftLawsOn', 'Rosu'), 'RosuModel.Props.C15ComboOnly', 'RosuModel.Props.C15ComboOnlyAny']   # files whose top-level theorems are all audited
     namespace = "Rosu.C15"
     design_ref = "5.15"
     required_theorems = [
+        "postProcessBreaks_flags", "forced_consumed_by_hold", "changed_flag_cursor", "only_first_after_break_forced_partial", "only_first_after_break_forced",
+        "only_first_after_break_forced_float", "chain_ieee",
         "velocity_worded_err_float", "velocity_factors_float", "velocity_not_exact_float",
         "shiftLawsOn_float_int", "shift_invariant_float_int", "shift_invariant_float_int_erased", "beatmap_shift_invariant_float_int", "slider_samples_shift_witness",
         "slider_samples_shift_false", "shift_invariant_float_int_statement_false", "shift_invariant_on", "shift_invariant_on_erased", "finish_rel_on","sorted_perm", "sorted_nondecreasing", "sorted_stable", "postProcessBreaks_length", "orNewCombo_only_sets",
@@ -109,6 +111,12 @@ class C15(Property):
                          "le_lt_ieee", "le_trans_ieee", "first_after_break_new_combo_float", "pairwise_of_consecutive_float",
                          "pairwise_of_consecutive_le_float", "first_after_break_new_combo_decoded_float"]
     partial_theorems = {
+        "only_first_after_break_forced_float / postProcessBreaks_flags": "Props/C15ComboOnly.lean, Props/C15ComboOnlyAny.lean (sixth session, wave 12): the CONVERSE of the break clause — every object other "
+            "than the first after a break keeps the new-combo flag of its line (what the harness oracle checks since seed C15-r). postProcessBreaks_flags: the result has the same length, every object keeps "
+            "everything but the flag, a hold note is untouched, and the flag is `flag || (forced ∧ ¬hold)` where `forced` holds exactly when the break under the cursor ended before the object; "
+            "forced_consumed_by_hold (a hold note after a break takes the pending force: the next object keeps its flag — the seeded defect's shape); changed_flag_cursor; only_first_after_break_forced: a changed "
+            "flag is false → true on a non-hold object that is the FIRST object after some break, for any listing of the breaks and any order of the objects, under the single order law ChainLaw — a theorem of "
+            "IEEE comparisons (chain_ieee, NaN included), so only_first_after_break_forced_float has no hypothesis. Every [Scalar F]; full strength",
         "first_after_break_new_combo": "proved under the hypothesis that the breaks are listed in non-decreasing end-time order (pairwise ¬ b₂.end < b₁.end; "
             "pairwise_of_consecutive derives it from the consecutive form) and one order fact about `<` on the values involved (x ≤ y < z → x < z on a set N containing "
             "all break ends and object starts — taken as a hypothesis in the generic form, instantiated on the integer toy scalar): for EVERY break the first "
